@@ -1,6 +1,8 @@
 (* C02 -- the traversal and depth limits bound all work done on a hostile message.
-   Statements only; each is closed by [exact] of a lemma proved in Core/LimitProofs.v and
-   Core/CanReadProofs.v.
+   Statements only; each is closed by [exact] of a lemma proved in Core/LimitProofs.v,
+   Core/CanReadProofs.v, Value/EqualSafe.v, Value/EqualAcct.v, Value/CanonSafe.v, Value/CanonAlloc.v,
+   Core/CopySafe.v, Core/CopyAlloc.v.  NOT covered by any theorem here: the bounds for text.Marshal
+   and pogs.Extract (C19 / C20 runs only, see LEVEL_NOTE in props/C02.py).
 
    Standing assumptions (trusted base): as for C01 where a theorem asks for [msg_ok];
    uint is 64 bits; D = depth_limit c >= 1 (cfg_D = 0 selects the default 64: depth_limit_pos),
@@ -44,7 +46,8 @@ Print Assumptions C02_traversal_bound_seq.
    every incarnation [inc] (the ops between one reset and the next): the budget right after the
    reset is init_rlimit c (the configured T, or the 64 MiB default when T = 0), no handle
    survives, and the read sizes handed out within the incarnation sum to at most that value.
-   (The first incarnation is C02_traversal_bound_seq, stated for reset-free op lists.) *)
+   (The first incarnation is C02_traversal_bound_seq, stated for op lists free of Reset /
+   ResetReadLimit / Unread: [no_reset].) *)
 Theorem C02_traversal_bound_incarnations : forall c fx m pre inc post, 0 <= cfg_T c -> no_reset inc = true ->
   let st0 := fst (run c fx m (init_state c) (pre ++ [OReset true])) in
   let r := run c fx m st0 inc in
@@ -56,6 +59,31 @@ Theorem C02_traversal_bound_incarnations : forall c fx m pre inc post, 0 <= cfg_
     snd (run c fx m (init_state c) pre) ++ VNum (Ok (init_rlimit c)) :: snd r ++ snd (run c fx m (fst r) post).
 Proof. exact traversal_bound_incarnations. Qed.
 Print Assumptions C02_traversal_bound_incarnations.
+
+(* the application-controlled budget API: Message.ResetReadLimit (OResetLimit n: budget := n) and
+   Message.Unread (OUnread n: budget += n, uint64 wrap) - and Reset - raise the budget; the bound
+   is per budget epoch: for EVERY op list [pre ++ o :: inc] with o one of these calls and inc free
+   of them, the budget right after o is the value the call sets, it is never negative, and the
+   read sizes handed out in inc sum to at most that value.  (T bounds the total only when the
+   application does not call these; across k calls the total is bounded by the sum of the k+1
+   epoch budgets.) *)
+Theorem C02_traversal_bound_epochs : forall c fx m pre o inc,
+  0 <= cfg_T c -> is_reset o = true -> no_reset inc = true ->
+  let st_pre := fst (run c fx m (init_state c) pre) in
+  let st0 := fst (run c fx m (init_state c) (pre ++ [o])) in
+  let r := run c fx m st0 inc in
+  rs_rl st0 = budget_after c (rs_rl st_pre) o /\ 0 <= rs_rl st0 /\
+  0 <= rs_rl (fst r) /\
+  handed_sum inc (snd r) <= rs_rl st0 - rs_rl (fst r) /\
+  handed_sum inc (snd r) <= rs_rl st0.
+Proof. exact traversal_bound_epochs. Qed.
+Print Assumptions C02_traversal_bound_epochs.
+
+(* whatever is called, in any order, the budget never goes negative *)
+Theorem C02_budget_nonneg : forall c fx m ops st, 0 <= cfg_T c -> 0 <= rs_rl st ->
+  0 <= rs_rl (fst (run c fx m st ops)).
+Proof. exact run_nonneg. Qed.
+Print Assumptions C02_budget_nonneg.
 
 (* sensitivity: the variant that re-arms with the default whatever was configured ([OReset
    false], the seeded change C02-r4-1) hands out 16 bytes in an incarnation with T = 8 *)
@@ -69,6 +97,7 @@ Example C02_reset_default_refuted :
   map obs_code (run_ops c fx m [ORoot; OReset false; ORoot; ORoot]) = [1; 67108864; 1; 1] /\
   handed_sum [ORoot; ORoot] (skipn 2 (run_ops c fx m [ORoot; OReset false; ORoot; ORoot])) = 16.
 Proof. exact reset_default_refuted. Qed.
+Print Assumptions C02_reset_default_refuted.
 
 (* each single API call (other than a walk): budget + handed-out size is conserved exactly,
    or the call is a refused dereference: an error, and the budget is 0 afterwards *)
@@ -154,6 +183,14 @@ Theorem C02_canread_terminates : forall sched cf cf', exec cf sched = Some cf' -
   Z.of_nat (length sched) + measure cf' <= measure cf.
 Proof. exact canread_terminates. Qed.
 Print Assumptions C02_canread_terminates.
+(* the measure is never negative, so a schedule has at most [measure cf] steps *)
+Theorem C02_measure_nonneg : forall cf, 0 <= measure cf.
+Proof. exact measure_nonneg. Qed.
+Print Assumptions C02_measure_nonneg.
+Theorem C02_schedule_length_bound : forall sched cf cf', exec cf sched = Some cf' ->
+  Z.of_nat (length sched) <= measure cf.
+Proof. exact schedule_length_bound. Qed.
+Print Assumptions C02_schedule_length_bound.
 Theorem C02_rlimit_changes_only_by_return : forall cf tid cf', cstep cf tid = Some cf' ->
   c_rlimit cf' <> c_rlimit cf -> npending cf' = npending cf - 1.
 Proof. exact rlimit_changes_only_by_return. Qed.
@@ -173,10 +210,8 @@ Example C02_cyclic_walk_bounded :
   msg_ok cyc_msg /\ tree_nofuel (ac_val a) = true /\
   ac_val a = TStruct [] [TComp 1 (mkOS 0 1) [TStruct [] [TErr]]] /\
   deref_count (fst r) + ac_d a = 2 /\ deref_size (fst r) + ac_h a = 16.
-Proof.
-  split; [repeat constructor; cbn; try lia; unfold maxSegmentSize; lia|].
-  vm_compute. repeat split.
-Qed.
+Proof. exact cyclic_walk_bounded_example. Qed.
+Print Assumptions C02_cyclic_walk_bounded.
 
 Example C02_depth_prefix_refuted :
   let c := mkCfg 0 2 true true in
@@ -185,6 +220,7 @@ Example C02_depth_prefix_refuted :
   p_valid (handle st 5) = true /\ lvl_of (run_lvl cyc_ops) 5 = 4 /\
   p_depth (handle st 5) = 18446744073709551612.
 Proof. exact (proj2 depth_prefix_refuted). Qed.
+Print Assumptions C02_depth_prefix_refuted.
 
 (* ================================================================== recursive consumers *)
 (* "every recursive consumer uses time and stack bounded by T and D": Equal, Canonicalize and
@@ -217,6 +253,7 @@ Example C02_equal_fuel_tight :
   fst (fst (run_equal 3 c c fx eq_deep_msg [] eq_deep_msg [] true SelRoot SelRoot)) = EFuel /\
   fst (fst (run_equal 4 c c fx eq_deep_msg [] eq_deep_msg [] true SelRoot SelRoot)) = EOk true.
 Proof. exact equal_fuel_tight. Qed.
+Print Assumptions C02_equal_fuel_tight.
 
 (* deep copy: from fuel 2 * (depth budget) + 3 on (2D + 1 for a pointer read under depth
    limit D) the result does not depend on the fuel: no error is a fuel artefact *)
